@@ -181,7 +181,23 @@ func c12(r *core.Run) {
 		r.Check(len(missing) == 0, "C12/R1", "gauge:release-dependence", p.InstrPos(bo.Instr), "amount ⊵ {Start, End, Coins, BlockTime, balance}", "the released amount does not depend on "+strings.Join(missing, ", ")+": linear, cumulative-aware streaming is impossible")
 		// sender is the gauge's own account
 		sp := p.ProvAt(bo.Args[0], "", bo.Instr)
-		r.Check(sp.Any(func(a core.Atom) bool { return a.Kind == "param" && a.Fn == fn }) && sp.HasExt("sha256"), "C12/R1", "gauge:release-from-own-account", p.InstrPos(bo.Instr), "sender = account derived from the iterated gauge", "coins are pulled from an account that is not derived from the gauge being processed")
+		// the gauge being processed: the root the amount takes the gauge's Coins / End from (the callback's parameter, or
+		// the record decoded from the iterator in a plain loop); the sender is a hash of that same root
+		root := func(a core.Atom) string {
+			k := a.Kind + ":" + a.Name
+			if a.Kind == "param" {
+				k = "param:" + a.Fn.String() + "#" + fmt.Sprint(a.Idx)
+			}
+			return k
+		}
+		gaugeRoots := map[string]bool{}
+		for _, a := range ap {
+			if strings.Contains(a.Path, ".Coins") || strings.HasSuffix(a.Path, ".End") || strings.HasSuffix(a.Path, ".Start") {
+				gaugeRoots[root(a)] = true
+			}
+		}
+		own := sp.Any(func(a core.Atom) bool { return gaugeRoots[root(a)] && a.Kind != "const" && a.Kind != "zero" })
+		r.Check(own && sp.HasExt("sha256"), "C12/R1", "gauge:release-from-own-account", p.InstrPos(bo.Instr), "sender = account derived from the iterated gauge", "coins are pulled from an account that is not derived from the gauge being processed: sender "+sp.String())
 		// coin sent = coin added to the pool
 		var sent ssa.Value
 		if c, ok := bo.Args[2].(*ssa.Call); ok && strings.HasSuffix(core.CalleeFullName(c), "types.NewCoins") {
